@@ -6,16 +6,16 @@
 
    case = [mode, cfg, machine, calls, progs, sched]
      mode    0: run the schedule        1: enumerate maximal schedules (budget = hd sched)
-     cfg     [machine_context lock ids, [[model, [lock ids]] ...], hierarchical?]   lock 0 = the default
-             PicklableLock (not instrumented: its acquire/release are not observable), ids >= 1 = user contexts
-     machine [state ids, [[event, src, dst] ...], [[model, initial state] ...]]
-     calls   [[cid, kind, a, b, c, [[slot, action, arg] ...]] ...]
+     cfg     [machine_context lock ids, hierarchical?]   lock 0 = the default PicklableLock (not
+             instrumented: its acquire/release are not observable), ids >= 1 = user contexts
+     machine [state ids, [[event, src, dst] ...], [[model, initial state, registered?, [model_context ids]] ...]]
+     calls   [[cid, kind, a, b, c, [[slot, action, arg] ...], [models], [model_context ids]] ...]
              kind 0 event a=model b=event | 1 set_state a=model b=state | 2 add_transition a=event b=src c=dst
-                  3 add_states a=state | 4 remove_model a=model
+                  3 add_states a=state | 4 remove_model [models] | 5 add_model [models] initial=b model_context
              slot 0 prepare_event 1 before 2 after 3 finalize; action 1 raise | 2 nested call arg=cid
      progs   [[cid ...] ...]  (thread i+1 issues the i-th list)
      sched   [tid ...]        (macro steps)
-   observation = [1, [log, final, alldone, serial_ok]]  *)
+   observation = [1, [log, final, alldone, serial_ok, left_the_envelope]]  *)
 From Coq Require Import List Arith Bool.
 From M Require Import Sx Lock.
 Import ListNotations.
@@ -25,15 +25,25 @@ Inductive cres : Type := RVal (v : nat) (* 0 False 1 True 2 None *) | RExn (k : 
 
 Record cspec : Type := mkSpec {
   s_cid : nat; s_kind : nat; s_a : nat; s_b : nat; s_c : nat;
-  s_script : list (nat * (nat * nat))
+  s_script : list (nat * (nat * nat));
+  s_ms : list nat; s_mc : list nat
 }.
 
 Record cms : Type := mkMS {
   m_states : list nat;
   m_trans : list (nat * (nat * nat));
-  m_models : list (nat * nat);
-  m_reg : list nat
+  m_models : list (nat * nat);           (* every model object -> its state attribute *)
+  m_reg : list nat;                      (* machine.models, in order *)
+  m_cmap : list (nat * list nat)         (* non-empty entries of model_context_map: model -> its model contexts *)
 }.
+
+Fixpoint lookup_l (l : list (nat * list nat)) (m : nat) : option (list nat) :=
+  match l with
+  | [] => None
+  | (m', c) :: r => if Nat.eqb m m' then Some c else lookup_l r m
+  end.
+Definition c_reg (ms : cms) (m : nat) : option (list nat) := lookup_l (m_cmap ms) m.
+Definition mem (x : nat) (l : list nat) : bool := existsb (Nat.eqb x) l.
 
 Record evp : Type := mkEvp { e_cid : nat; e_m : nat; e_dst : nat; e_res : cres }.
 
@@ -58,7 +68,48 @@ Fixpoint set_assoc (l : list (nat * nat)) (m s : nat) : list (nat * nat) :=
   end.
 
 Definition set_model_state (ms : cms) (m s : nat) : cms :=
-  mkMS (m_states ms) (m_trans ms) (set_assoc (m_models ms) m s) (m_reg ms).
+  mkMS (m_states ms) (m_trans ms) (set_assoc (m_models ms) m s) (m_reg ms) (m_cmap ms).
+
+(* Machine.add_model (core): a model not yet in machine.models gets the initial state and is appended *)
+Fixpoint core_add (ms : cms) (l : list nat) (init : nat) : cms :=
+  match l with
+  | [] => ms
+  | m :: r =>
+      if mem m (m_reg ms) then core_add ms r init
+      else core_add (mkMS (m_states ms) (m_trans ms) (set_assoc (m_models ms) m init) (m_reg ms ++ [m]) (m_cmap ms)) r init
+  end.
+
+(* HierarchicalMachine.add_model: afterwards EVERY listed model is set to the state of the first one *)
+Definition hier_add (ms : cms) (l : list nat) : cms :=
+  match l with
+  | [] => ms
+  | m0 :: _ => fold_left (fun acc m => set_model_state acc m (match assoc_nat (m_models ms) m0 with Some s => s | None => 999 end)) l ms
+  end.
+
+(* LockedMachine.add_model: a model whose entry is empty gets machine_context ++ model_context *)
+Fixpoint lock_add (cm : list (nat * list nat)) (l : list nat) (mc : list nat) : list (nat * list nat) :=
+  match l with
+  | [] => cm
+  | m :: r => match lookup_l cm m with
+              | Some _ => lock_add cm r mc
+              | None => lock_add (cm ++ [(m, mc)]) r mc
+              end
+  end.
+
+(* LockedMachine.remove_model: del map[id(mod)] for each (KeyError stops the loop), then Machine.remove_model *)
+Fixpoint lock_del (cm : list (nat * list nat)) (l : list nat) : list (nat * list nat) * bool :=
+  match l with
+  | [] => (cm, true)
+  | m :: r => match lookup_l cm m with
+              | Some _ => lock_del (filter (fun e => negb (Nat.eqb (fst e) m)) cm) r
+              | None => (cm, false)
+              end
+  end.
+Fixpoint core_del (reg : list nat) (l : list nat) : list nat * bool :=
+  match l with
+  | [] => (reg, true)
+  | m :: r => if mem m reg then core_del (filter (fun x => negb (Nat.eqb x m)) reg) r else (reg, false)
+  end.
 
 Fixpoint first_dst (tr : list (nat * (nat * nat))) (e src : nat) : option nat :=
   match tr with
@@ -74,6 +125,7 @@ Definition script_at (s : cspec) (sl : nat) : nat * nat :=
 
 Section Concrete.
   Variable tab : list cspec.
+  Variable hier : bool.
 
   Definition c_start (c : call) : kk :=
     match find_spec tab (c_id c) with
@@ -99,11 +151,21 @@ Section Concrete.
             | 1 => if existsb (Nat.eqb (s_b s)) (m_states ms)
                    then (set_model_state ms (s_a s) (s_b s), [], SDone (RVal 2))
                    else (ms, [], SDone (RExn 2))
-            | 2 => (mkMS (m_states ms) (m_trans ms ++ [(s_a s, (s_b s, s_c s))]) (m_models ms) (m_reg ms),
+            | 2 => (mkMS (m_states ms) (m_trans ms ++ [(s_a s, (s_b s, s_c s))]) (m_models ms) (m_reg ms) (m_cmap ms),
                     [], SDone (RVal 2))
-            | 3 => (mkMS (m_states ms ++ [s_a s]) (m_trans ms) (m_models ms) (m_reg ms), [], SDone (RVal 2))
-            | 4 => (mkMS (m_states ms) (m_trans ms) (m_models ms)
-                         (filter (fun x => negb (Nat.eqb x (s_a s))) (m_reg ms)), [], SDone (RVal 2))
+            | 3 => (mkMS (m_states ms ++ [s_a s]) (m_trans ms) (m_models ms) (m_reg ms) (m_cmap ms), [], SDone (RVal 2))
+            | 4 => match lock_del (m_cmap ms) (s_ms s) with
+                   | (cm, false) => (mkMS (m_states ms) (m_trans ms) (m_models ms) (m_reg ms) cm, [], SDone (RExn 9))
+                   | (cm, true) =>
+                       match core_del (m_reg ms) (s_ms s) with
+                       | (rg, ok) => (mkMS (m_states ms) (m_trans ms) (m_models ms) rg cm, [],
+                                      SDone (if ok then RVal 2 else RExn 2))
+                       end
+                   end
+            | 5 => let ms1 := core_add ms (s_ms s) (s_b s) in
+                   let ms2 := if hier then hier_add ms1 (s_ms s) else ms1 in
+                   (mkMS (m_states ms2) (m_trans ms2) (m_models ms2) (m_reg ms2) (lock_add (m_cmap ms2) (s_ms s) (s_mc s)),
+                    [], SDone (RVal 2))
             | _ => (ms, [], SDone (RExn 9))
             end
         end
@@ -166,7 +228,8 @@ Definition next_visible (th : cthread) : bool :=
 Section Macro.
   Variable tab : list cspec.
   Variable cfg : lcfg.
-  Definition cstep : nat -> cgstate -> cgstate := step (c_start tab) (c_resume tab) c_ret cfg.
+  Definition cstep : nat -> cgstate -> cgstate :=
+    step (c_start tab) (c_resume tab (cfg_hier cfg)) c_ret c_reg cfg.
 
   Fixpoint macro_go (fuel : nat) (first : bool) (t : nat) (g : cgstate) : cgstate :=
     match fuel with
@@ -214,11 +277,10 @@ End Macro.
 Definition d_nats := d_list d_nat.
 Definition d_cfg (x : sx) : option lcfg :=
   match x with
-  | L [mc; mods; h] =>
+  | L [mc; h] =>
       do mc' <- d_nats mc;
-      do mods' <- d_list (d_pair d_nat d_nats) mods;
       do h' <- d_bool h;
-      Some (mkCfg mc' mods' h')
+      Some (mkCfg mc' h')
   | _ => None
   end.
 
@@ -228,22 +290,30 @@ Definition d_triple (x : sx) : option (nat * (nat * nat)) :=
   | _ => None
   end.
 
+Definition d_modelx (x : sx) : option (nat * nat * bool * list nat) :=
+  match x with
+  | L [m; st; r; mc] => do m' <- d_nat m; do st' <- d_nat st; do r' <- d_bool r; do mc' <- d_nats mc; Some (m', st', r', mc')
+  | _ => None
+  end.
+
 Definition d_machine (x : sx) : option cms :=
   match x with
   | L [sts; trs; mods] =>
       do sts' <- d_nats sts;
       do trs' <- d_list d_triple trs;
-      do mods' <- d_list (d_pair d_nat d_nat) mods;
-      Some (mkMS sts' trs' mods' (map fst mods'))
+      do mods' <- d_list d_modelx mods;
+      Some (mkMS sts' trs' (map (fun x : nat * nat * bool * list nat => (fst (fst (fst x)), snd (fst (fst x)))) mods')
+                 (flat_map (fun x : nat * nat * bool * list nat => if snd (fst x) then [fst (fst (fst x))] else []) mods')
+                 (flat_map (fun x : nat * nat * bool * list nat => if snd (fst x) then [(fst (fst (fst x)), snd x)] else []) mods'))
   | _ => None
   end.
 
 Definition d_spec (x : sx) : option cspec :=
   match x with
-  | L [cid; k; a; b; c; scr] =>
+  | L [cid; k; a; b; c; scr; msl; mcl] =>
       do cid' <- d_nat cid; do k' <- d_nat k; do a' <- d_nat a; do b' <- d_nat b; do c' <- d_nat c;
-      do scr' <- d_list d_triple scr;
-      Some (mkSpec cid' k' a' b' c' scr')
+      do scr' <- d_list d_triple scr; do msl' <- d_nats msl; do mcl' <- d_nats mcl;
+      Some (mkSpec cid' k' a' b' c' scr' msl' mcl')
   | _ => None
   end.
 
@@ -263,9 +333,10 @@ Definition e_lev (e : lev (R:=cres) (I:=citem)) : list sx :=
   | _ => []
   end.
 
-Definition e_final (ms : cms) : sx :=
+Definition e_final (mach : list nat) (ms : cms) : sx :=
   L [e_list (e_pair e_nat e_nat) (m_models ms); e_list e_nat (m_reg ms); e_list e_nat (m_states ms);
-     e_list (fun t : nat * (nat * nat) => L [N (fst t); N (fst (snd t)); N (snd (snd t))]) (m_trans ms)].
+     e_list (fun t : nat * (nat * nat) => L [N (fst t); N (fst (snd t)); N (snd (snd t))]) (m_trans ms);
+     e_list (fun e : nat * list nat => L [N (fst e); e_list e_nat (mach ++ [99] ++ snd e)]) (m_cmap ms)].
 
 Fixpoint sx_eqb (a b : sx) : bool :=
   match a, b with
@@ -304,15 +375,15 @@ Definition run_lock_case (x : sx) : sx :=
               let alldone := forallb (fun t => thread_done (g_th g t)) (seq 1 n) in
               let serial :=
                 if alldone then
-                  match serial_run (c_start tab) (c_resume tab) c_ret 200 (map snd (g_acq g)) ms0 with
+                  match serial_run (c_start tab) (c_resume tab (cfg_hier cfg)) c_ret 200 (map snd (g_acq g)) ms0 with
                   | Some (msf, l) =>
-                      if sx_eqb (e_final msf) (e_final (g_ms g)) &&
+                      if sx_eqb (e_final [] msf) (e_final [] (g_ms g)) &&
                          sx_eqb (e_done l) (e_done (map (fun d => (d_res d, d_items d)) (g_done g)))
                       then 1 else 0
                   | None => 0
                   end
                 else 2 in
-              L [N 1; L [L (flat_map e_lev (g_log g)); e_final (g_ms g); e_bool alldone; N serial]]
+              L [N 1; L [L (flat_map e_lev (g_log g)); e_final (cfg_machine cfg) (g_ms g); e_bool alldone; N serial; e_bool (g_bad g)]]
           | _ =>
               let budget := match sched with b :: _ => b | [] => 100 end in
               L [N 2; e_list (e_list e_nat) (fst (enum tab cfg 200 n g0 [] budget))]
